@@ -100,6 +100,7 @@ def gen_cfg(seed, index, tier):
     # total energies of real molecules are far larger than the large-deviation bound sqrt(2/dt): a constant
     # offset of the Hamiltonian brings the exact eigenvalue into that regime
     m["h0_offset"] = rng.choice([0.0, 0.0, -60.0, 45.0])
+    m["reuse_ham_data"] = m["kind"] == "lists" and rng.random() < 0.3
     if m["kind"] == "driver":
         faults = []
         if rng.random() < 0.4:
@@ -288,6 +289,17 @@ def _exec_lists(cfg, ctx):
     nonauf = not is_aufbau(ref, nelec)
     ctx.probe("non_aufbau_reference", nonauf)
     hd = {"h0": ham_data["h0"], "h1": ham_data["h1"], "chol": ham_data["chol"], "ene0": 0.0}
+    if cfg.get("reuse_ham_data"):
+        # a dict with a history: built for another Hamiltonian first, integrals then overwritten, rebuilt in place
+        import jax.numpy as jnp
+
+        other = dict(hd)
+        other["chol"] = 0.5 * jnp.array(hd["chol"])
+        other = dict(trial._build_measurement_intermediates(other, wave_data))
+        for k_ in ("h0", "h1", "chol"):
+            other[k_] = hd[k_]
+        hd = other
+        ctx.probe("reused_ham_data", 1)
     hd = trial._build_measurement_intermediates(hd, wave_data)
     nw = cfg["n_walkers"]
     ups = rs.normal(size=(nw, norb, nelec[0])) + 1j * rs.normal(size=(nw, norb, nelec[0]))
